@@ -92,7 +92,7 @@ Print Assumptions C14_checker_sound.
 
 (* hypotheses are satisfiable: a concrete selection with two features kept and one filtered *)
 Example C14_nonvacuous :
-  let t := mkTin 10 (999, 1000) (999, 1000) 2%nat [mkM true false false 0 0]
+  let t := mkTin 10 (999, 1000) (999, 1000) 2%nat [mkM true false 0 0]
              [mkFeat 0 0 3 [mkRaw false false false 7] [Some 7];
               mkFeat 1 0 3 [mkRaw false false false 9] [Some 9];
               mkFeat 2 0 3 [mkRaw false false false 8] [Some 8]]
